@@ -637,6 +637,52 @@ func Origins(v ssa.Value) []ssa.Value {
 	return out
 }
 
+// DeepOrigin is an origin found by following a value into the returns of the statically resolved
+// first-party helper that produced it, with the call context under which it was found.
+type DeepOrigin struct {
+	V   ssa.Value
+	Ctx []*ssa.Call
+}
+
+// OriginsDeep is Origins continued through helper results: when an origin is result #i of a call to a
+// first-party function, the origins of that function's i-th return values are reported instead (under the
+// call's context, so the helper's parameters resolve to the caller's arguments), to depth 3.
+func OriginsDeep(v ssa.Value) []DeepOrigin {
+	var out []DeepOrigin
+	var walk func(v ssa.Value, depth int)
+	walk = func(v ssa.Value, depth int) {
+		for _, o := range Origins(v) {
+			if o != nil && depth < 3 {
+				if call, idx := CallOf(o); call != nil {
+					if c, ok := call.(*ssa.Call); ok {
+						if h := c.Call.StaticCallee(); h != nil && len(h.Blocks) > 0 {
+							activeCtx = append(activeCtx, c)
+							for _, r := range Returns(h) {
+								if idx < len(r.Results) {
+									walk(r.Results[idx], depth+1)
+								}
+							}
+							activeCtx = activeCtx[:len(activeCtx)-1]
+							continue
+						}
+					}
+				}
+			}
+			out = append(out, DeepOrigin{V: o, Ctx: append([]*ssa.Call{}, activeCtx...)})
+		}
+	}
+	walk(v, 0)
+	return out
+}
+
+// WithCtx runs f with the given call context active (see activeCtx).
+func WithCtx(ctx []*ssa.Call, f func()) {
+	saved := activeCtx
+	activeCtx = ctx
+	defer func() { activeCtx = saved }()
+	f()
+}
+
 func soleDominatingFieldStore(load *ssa.UnOp, fa *ssa.FieldAddr) *ssa.Store {
 	fn := load.Parent()
 	var found *ssa.Store
